@@ -252,11 +252,14 @@ def _branch(req):
             seams.S.effects = []
             seams.S.trace_fd = w_fd
             seams.S.plan = req.get("plan")
+            if req.get("knobs"):
+                _apply_knobs(req["knobs"])
             if seams.S.plan and seams.S.plan.get("after") == -1:
                 os._exit(seams.CRASH_EXIT)
+            seams.S.fired.clear()
             obs = observe(req["e"])
             seams.S.plan = None
-            _send(w_fd, {"done": obs})
+            _send(w_fd, {"done": obs, "fired": dict(seams.S.fired)})
         except BaseException as ex:  # harness problem inside the branch
             try:
                 _send(w_fd, {"harness_error": repr(ex)})
@@ -266,7 +269,7 @@ def _branch(req):
         os._exit(0)
     os.close(w_fd)
     rd = LineReader(r_fd)
-    trace, done, herr = [], None, None
+    trace, done, herr, fired = [], None, None, {}
     try:
         while True:
             msg = rd.read(timeout=25)
@@ -276,6 +279,7 @@ def _branch(req):
                 trace.append(msg)
             elif "done" in msg:
                 done = msg["done"]
+                fired = msg.get("fired") or {}
             elif "harness_error" in msg:
                 herr = msg["harness_error"]
     except TimeoutError:
@@ -285,7 +289,7 @@ def _branch(req):
         os.close(r_fd)
     _, status = os.waitpid(pid, 0)
     code = os.waitstatus_to_exitcode(status)
-    out = {"exit": code, "trace": trace, "obs": done, "fired": {}}
+    out = {"exit": code, "trace": trace, "obs": done, "fired": fired}
     if herr:
         out["harness_error"] = herr
     return out
@@ -398,8 +402,8 @@ class Executor:
     def obs(self, e, store=None):
         return self.eval(e, store)["obs"]
 
-    def branch(self, e, plan=None):
-        return self._rpc({"k": "branch", "e": e, "plan": plan})
+    def branch(self, e, plan=None, knobs=None):
+        return self._rpc({"k": "branch", "e": e, "plan": plan, "knobs": knobs})
 
     def knobs(self, **v):
         return self._rpc({"k": "knobs", "v": v})
